@@ -34,6 +34,9 @@ func genScript(t *rapid.T, g scriptGenOpts) Script {
 	if rapid.IntRange(0, 2).Draw(t, "reqmd-more") == 0 {
 		s.ReqMDMore = genMD(t, "reqmd2", g.MDKeys)
 	}
+	s.Deadline = rapid.IntRange(0, 3).Draw(t, "deadline") == 0
+	s.Chunked = rapid.IntRange(0, 4).Draw(t, "chunked") == 0
+	s.RespWithErr = rapid.IntRange(0, 2).Draw(t, "respwitherr") == 0
 	if rapid.IntRange(0, 7).Draw(t, "spoof") == 0 {
 		s.Spoof = 1 + rapid.SampledFrom([]int{0, 0, 5, 13, 16}).Draw(t, "spoofcode")
 	}
